@@ -129,14 +129,14 @@ def run(ctx):
     nrandom = 150 if quick else 1000
     import time
     t_gen = time.time()
-    with mp.Pool(tlc.NCPU) as pool:
+    with mp.get_context("fork").Pool(tlc.NCPU, maxtasksperchild=1) as pool:     # one ISA per process
         counts = pool.map(c17.spec_count, D.isa_modes())
         jobs = []
         for isa, mode, n, err in counts:
             if err:
                 ctx.fail("C17:%s:import" % isa, "ISA module %s (%s) no longer imports: %s" % (isa, mode, err), None)
                 continue
-            step = max(8, min(64, (n * len(fillings)) // 600 or 8))
+            step = max(16, -(-n // 6))      # at most 6 chunks per ISA/mode; every chunk runs in its own process
             lo = 0
             first = True
             while lo < n:
